@@ -541,7 +541,16 @@ class MasterWorld:
             return
         elif kind == 'reload-check':
             from mc.worlds import mastermon
-            mastermon.check_c11(self)
+            n = mastermon.check_c11(self)
+            self.last_reload_reads = n
+            return
+        elif kind == 'reload-fault':
+            # the same load with its k-th ZooKeeper read failing
+            from mc.worlds import mastermon
+            mark = len(self.viol)
+            mastermon.check_c11(self, fail_read=body[1])
+            for v in self.viol[mark:]:
+                v['site'] += ' [one read of the load failed]'
             return
         else:
             raise AssertionError('unknown event %r' % (ev,))
